@@ -142,6 +142,14 @@ def judge_batch_call():
     E = 10.0 ** (-4 + 7 * ((i * 0.5698402909980532) % 1.0))
     la = 0.01 * i
     lo = -0.02 * i
+    # degenerate compositions: bit-identical copies of an event (adjacent, and across the 100-event partition boundary),
+    # events that tie in the angle only, and events on ONE track with ascending energy
+    for x in (b, a, E, la, lo):
+        x[5] = x[4]
+        x[120] = x[7]
+    b[60] = b[30]
+    b[41], a[41] = b[40], a[40]
+    E[40], E[41] = 1.0, 10.0
     with own.null_progress(), dask.config.set(scheduler="synchronous"), np.errstate(all="ignore"):
         try:
             D, C = k32(b.copy(), a.copy(), E.copy(), la.copy(), lo.copy(), None)
@@ -151,7 +159,8 @@ def judge_batch_call():
         if len(D) != n or len(C) != n:
             return [("batch_call_event_by_event", n, [len(D), len(C)])]
         for j in range(n):
-            d, c = k32.run(b[j], a[j], E[j], la[j], lo[j], None)
+            # one at a time: on a fresh kernel object (nothing an earlier event left behind can reach this one)
+            d, c = type(k32)(525.0).run(b[j], a[j], E[j], la[j], lo[j], None)
             if (np.float64(d).tobytes(), np.float32(c).tobytes()) != (np.float64(D[j]).tobytes(), np.float32(C[j]).tobytes()):
                 out.append(("batch_call_event_by_event", f"event {j}: {float(d)}, {float(c)}", [float(D[j]), float(C[j])]))
                 break
